@@ -165,6 +165,7 @@ type Session struct {
 	stamp    uint64
 
 	CommitN int // number of commit attempts (for disk marks)
+	History []SpecState // committed spec states, History[0] = fresh file
 	resized bool // max size was changed on a reopen
 }
 
@@ -391,6 +392,10 @@ func (s *Session) OpenWith(opts txfile.Options, label string) string {
 	s.emit("%s ps=%d maxsize=%d meta=%d prealloc=%v flags=%d => %s", label, opts.PageSize, opts.MaxSize, opts.InitMetaArea, opts.Prealloc, uint64(opts.Flags), res)
 	if res == "ok" {
 		s.F = f
+		if len(s.History) == 0 {
+			s.History = append(s.History, s.specState(0))
+			s.Disk.Mark("created")
+		}
 		s.emitSnap()
 	} else {
 		s.F = nil
@@ -805,6 +810,7 @@ func (s *Session) Commit() string {
 	s.emit("commit [%s] => %s", rec, res)
 	if res == "ok" {
 		s.applyCommit()
+		s.History = append(s.History, s.specState(n))
 		after := s.F.VerifSnapshot()
 		if len(after.Mapping) < len(before.Mapping) && len(before.Mapping) > 0 {
 			s.mark("wal-shrunk")
